@@ -340,3 +340,27 @@ pub fn replay(ctx: &mut Ctx, stage: &str, case: &Value) -> Result<(), String> {
         check_history(ctx, &h)
     }
 }
+
+/// (decoder index of the C15 table, bytes): whole frames for Request::try_from, payloads for the two inner parsers
+pub fn frame_bytes() -> impl Strategy<Value = (usize, Vec<u8>)> {
+    (frame(), 0u8..4).prop_map(|(f, which)| {
+        let (bytes, data): (Vec<u8>, Vec<u8>) = match &f {
+            Frame::Register { challenge, application, le } => {
+                let d = [challenge.as_slice(), application].concat();
+                (apdu(1, 0, &d, *le, false), d)
+            }
+            Frame::Authenticate { p1, challenge, application, handle, le } => {
+                let mut d = [challenge.as_slice(), application].concat();
+                d.push(handle.len() as u8);
+                d.extend_from_slice(handle);
+                (apdu(2, [3u8, 7, 8][*p1 as usize % 3], &d, *le, false), d)
+            }
+            Frame::Version { le } => (apdu(3, 0, &[], *le, le.is_some()), vec![]),
+        };
+        match (which, &f) {
+            (3, Frame::Register { .. }) => (14, data),
+            (3, Frame::Authenticate { .. }) => (15, data),
+            _ => (13, bytes),
+        }
+    })
+}
